@@ -1,5 +1,6 @@
 pub mod api;
 pub mod engine;
+pub mod fuzzapi;
 pub mod gen;
 pub mod model;
 pub mod props;
